@@ -210,6 +210,9 @@ func (r *runner) generate() {
 
 	// ---------------- @ipMatch (implementation-side oracle only) ----------------
 	r.genIPMatch(rng)
+
+	// ---------------- @ipMatch / @ipMatchFromFile against the model (own PRNG stream) ----------------
+	r.genIpmModel()
 }
 
 func (r *runner) genPm(rng *rand.Rand) {
